@@ -205,7 +205,7 @@ def run(ctx):
                 "masses, coherent rho), every piece compared with the model: Verlet update, midpoint generator (true midpoint "
                 "velocity), exponential step with the captured eigh; forward/reverse runs (FSSH exp integrator, single-surface MD; also released from "
                 "rest and in the diabatic representation) and Richardson levels dt..dt/8 for both integrators in both representations. Non-trivial = n>=2 or N>=3; distinct by (check, N, n, integrator)")
-    ctx.assumptions += ["order two itself is not a Lean theorem (symmetric + consistent => even order is cited); tested by Richardson ratios",
+    ctx.assumptions += ["order two is a Lean theorem for harmonic models only (verlet_harmonic_global_error, explicit constants); for a general smooth force symmetric + consistent => even order is cited, and the factor four is tested by Richardson ratios",
                         "the reversed run continues the adiabatic gauge of the forward run (its final electronics object is passed on)"]
     ctx.fingerprints["mudslide/trajectory_sh.py"] = fingerprint(
         "mudslide/trajectory_sh.py", ["advance_position", "advance_velocity", "hamiltonian_propagator", "propagate_electronics", "simulate"])
